@@ -244,6 +244,12 @@ func c08Run(c *h.Ctx) {
 			fwHistory(c, id, "C08")
 		}
 	}
+	for k := 0; k < c.Pick(2, 12); k++ {
+		id := fmt.Sprintf("free%d", k)
+		if c.Case(id) {
+			c08FreeRun(c, id, c.Rng(id))
+		}
+	}
 	nf := c.Pick(80, 800)
 	for k := 0; k < nf; k++ {
 		id := fmt.Sprintf("fib%d", k)
